@@ -247,7 +247,9 @@ struct ChunkedRange {
       // functions should be invoked instead.
       std::abort();
     }
-    return {chunk, (size() + chunk - 1) / chunk};
+    // Avoid size() + chunk - 1, which wraps for 64-bit IntegerT when chunk is close to the type's maximum.
+    const size_type explicitChunk = static_cast<size_type>(chunk);
+    return {explicitChunk, size() / explicitChunk + (size() % explicitChunk != 0 ? 1 : 0)};
   }
 
   IntegerT start;
